@@ -292,7 +292,16 @@ func BuildSchema(prefix string, shapes []*Shape) *abs.Schema {
 			qp[q.Field] = q
 		}
 		for i, fdef := range sh.Rpc.Fdefs {
-			fl := &abs.Field{Name: fdef.Name, Num: int32(i + 1), Kind: fdef.Kind, Card: fdef.Card, Rules: abs.NoRules()}
+			fl := &abs.Field{Name: fdef.Name, Num: int32(i + 1), Kind: fdef.Kind, Card: fdef.Card, Rules: abs.NoRules(), Oneof: fdef.Oneof}
+			if fdef.Oneof != "" {
+				found := false
+				for _, o := range msg.Oneofs {
+					found = found || o.Name == fdef.Oneof
+				}
+				if !found {
+					msg.Oneofs = append(msg.Oneofs, &abs.Oneof{Name: fdef.Oneof})
+				}
+			}
 			if fdef.Kind == "N" {
 				fl.Kind, fl.Ref = "message", pk+".N"
 				if fdef.Card == "map" {
